@@ -109,35 +109,117 @@ def DlFile.toCand {σ β : Type} (h : Hasher σ) (f : DlFile β) : DlCand β :=
 
 /-! ### Breakpad `.sym` candidates and their `.symindex` sidecar -/
 
-/-- A Breakpad `.sym` candidate. `own` is the id in its MODULE line; `side` is what
-`BreakpadIndex::parse_symindex_file` says about the file at `location_for_breakpad_symindex()`:
-`.ok id` = it parses and states `id`, `.unreadable` = no such location / `load_file` fails (lib.rs:613-620),
-`.unparsable` = it does not parse (symbol_map.rs:67). -/
-structure BpCand (ι : Type) where
-  own : DebugId ι
-  side : Load (DebugId ι)
+/-- nom `space1`: one or more blanks or tabs -/
+def isSp (b : UInt8) : Bool := b == 32 || b == 9
+/-- `non_space` (breakpad/index.rs:902): everything but a blank -/
+def notBlank (b : UInt8) : Bool := b != 32
+/-- nom `hex_digit1` -/
+def isHexDigit (b : UInt8) : Bool := (48 ≤ b && b ≤ 57) || (65 ≤ b && b ≤ 70) || (97 ≤ b && b ≤ 102)
+
+def space1 : List UInt8 → Option (List UInt8)
+  | [] => none
+  | b :: r => if isSp b then some (r.dropWhile isSp) else none
+
+/-- "MODULE" -/
+def tagModule : List UInt8 := [77, 79, 68, 85, 76, 69]
+
+def stripTag (l : List UInt8) : Option (List UInt8) := if l.take 6 = tagModule then some (l.drop 6) else none
+
+/-- The debug-id token of a MODULE line, as the `module_line` parser (breakpad/index.rs:907-919) cuts it out:
+`MODULE <blanks> os <blanks> cpu <blanks> HEX+ <blanks> name`. (The parser also wants `os`, `cpu`, `name` to be UTF-8 and
+the token to be a Breakpad id; the id a line states is a function of this token.) -/
+def idToken (l : List UInt8) : Option (List UInt8) :=
+  match stripTag l with
+  | none => none
+  | some r0 =>
+  match space1 r0 with
+  | none => none
+  | some r1 =>
+  match space1 (r1.dropWhile notBlank) with          -- os
+  | none => none
+  | some r2 =>
+  match space1 (r2.dropWhile notBlank) with          -- cpu
+  | none => none
+  | some r3 =>
+  if (r3.takeWhile isHexDigit).isEmpty then none else
+  match space1 (r3.dropWhile isHexDigit) with        -- at least one blank after the id
+  | none => none
+  | some _ => some (r3.takeWhile isHexDigit)
+
+/-- the bytes up to the first line feed -/
+def firstLine (bytes : List UInt8) : List UInt8 := bytes.takeWhile (· != 10)
+
+/-- A Breakpad `.sym` candidate: `head` = the bytes of the file (any prefix that contains its first line will do);
+`side` = the `.symindex` at `location_for_breakpad_symindex()`: `.ok info` = `BreakpadIndex::parse_symindex_file`
+succeeds and `info` is its `module_info_bytes`; `.unreadable` = no such location / `load_file` fails (lib.rs:613-620);
+`.unparsable` = it does not parse. -/
+structure BpCand where
+  head : List UInt8
+  side : Load (List UInt8)
 deriving Repr
 
-/-- symbol_map.rs:62-70 + :236-237: a sidecar that parses *is* the index, without a comparison with the `.sym`;
-the map reports the index's id. Otherwise the index is built from the `.sym` itself. -/
-def BpCand.reported {ι : Type} (c : BpCand ι) : DebugId ι :=
+/-- symbol_map.rs:66-84 (since fix 3f61c23c): a parsable sidecar is used only if the first line of its module info
+is non-empty and equals the first bytes of the `.sym` file (`read_bytes_at(0, len)` succeeds and compares equal) -/
+def BpCand.sidecarUsed (c : BpCand) : Bool :=
   match c.side with
-  | .ok d => d
-  | _ => c.own
+  | .ok info =>
+    let moduleLine := firstLine info
+    !moduleLine.isEmpty && decide (c.head.take moduleLine.length = moduleLine)
+  | _ => false
 
-/-- lookups are always served from the text of the `.sym` file (symbol_map.rs:104-109: `data: &self.data`),
-i.e. from build `own`, whatever the index says -/
-def BpCand.content {ι : Type} (c : BpCand ι) : DebugId ι := c.own
+/-- before 3f61c23c: every parsable sidecar was used -/
+def BpCand.sidecarUsedLegacy (c : BpCand) : Bool :=
+  match c.side with
+  | .ok _ => true
+  | _ => false
 
-def BpCand.toCandidate {ι : Type} (c : BpCand ι) : Candidate ι (SymInfo ι) := .single (.ok ⟨c.reported⟩)
+section
+variable {ι : Type} (parseId : List UInt8 → Option (DebugId ι))
+
+/-- the id in the MODULE line of the `.sym` itself (`parseId` = `DebugId::from_breakpad` on the token) -/
+def BpCand.own (c : BpCand) : Option (DebugId ι) := (idToken (firstLine c.head)).bind parseId
+
+/-- the id a sidecar states -/
+def BpCand.sideId (c : BpCand) : Option (DebugId ι) :=
+  match c.side with
+  | .ok info => (idToken (firstLine info)).bind parseId
+  | _ => none
+
+/-- the id the symbol map reports (symbol_map.rs `debug_id()` = the id of the index in use): the sidecar's if the
+sidecar is used, else that of the index built from the `.sym` itself -/
+def BpCand.reported (c : BpCand) : Option (DebugId ι) :=
+  if c.sidecarUsed then c.sideId parseId else c.own parseId
+
+def BpCand.reportedLegacy (c : BpCand) : Option (DebugId ι) :=
+  if c.sidecarUsedLegacy then c.sideId parseId else c.own parseId
+
+/-- lookups are always served from the text of the `.sym` file (`data: &self.data`), i.e. from build `own` -/
+def BpCand.content (c : BpCand) : Option (DebugId ι) := c.own parseId
+
+def BpCand.toCandidate (c : BpCand) : Candidate ι (SymInfo ι) :=
+  match c.reported parseId with
+  | some d => .single (.ok ⟨d⟩)
+  | none => .single .unparsable          -- no MODULE line: `BreakpadIndexCreator::finish` fails
+
+def BpCand.toCandidateLegacy (c : BpCand) : Candidate ι (SymInfo ι) :=
+  match c.reportedLegacy parseId with
+  | some d => .single (.ok ⟨d⟩)
+  | none => .single .unparsable
 
 /-- `load_symbol_map` over Breakpad candidates with sidecars: the outcome of `loadSymbolMap` plus the build whose
 text serves the lookups -/
-def loadSymbolMapBp {ι : Type} [DecidableEq ι] (native : List ι) (req : Option (DebugId ι)) (cs : List (BpCand ι)) :
+def loadSymbolMapBp [DecidableEq ι] (native : List ι) (req : Option (DebugId ι)) (cs : List BpCand) :
     SymOut ι × Option (DebugId ι) :=
-  match loadSymbolMap native req (cs.map BpCand.toCandidate) with
-  | .ok k m => (.ok k m, (cs[k]?).map BpCand.content)
+  match loadSymbolMap native req (cs.map (BpCand.toCandidate parseId)) with
+  | .ok k m => (.ok k m, (cs[k]?).bind (BpCand.content parseId))
   | out => (out, none)
+
+def loadSymbolMapBpLegacy [DecidableEq ι] (native : List ι) (req : Option (DebugId ι)) (cs : List BpCand) :
+    SymOut ι × Option (DebugId ι) :=
+  match loadSymbolMap native req (cs.map (BpCand.toCandidateLegacy parseId)) with
+  | .ok k m => (.ok k m, (cs[k]?).bind (BpCand.content parseId))
+  | out => (out, none)
+end
 
 /-! ### dyld shared cache entry points -/
 
